@@ -1,5 +1,5 @@
 (* Properties_C06.v — C06: saving is deterministic and idempotent. *)
-From ElfioV Require Import Bytes Mem Stream SectionData Strings Elfio Table Loader Layout Writer Layout_proofs Segment_proofs Oneseg_proofs Oneseg_again.
+From ElfioV Require Import Bytes Mem Stream SectionData Strings Elfio Table Loader Layout Writer Layout_proofs Segment_proofs Oneseg_proofs Oneseg_again Accessors ByName_proofs Save_twice.
 Local Open Scope N_scope.
 
 (* save() is a function of the object and the stream: the model has no hidden
@@ -74,6 +74,36 @@ Theorem C06_second_layout_is_identity_one_segment :
 Proof. exact layout_oneseg_twice. Qed.
 Print Assumptions C06_second_layout_is_identity_one_segment.
 
+(* From the layout to the bytes.  Let a first save() of el0 succeed in forcing the data (results sta/secsa,
+   stb/segsb) and in laying the object out as el1, let the layout step be the identity on el1 (the theorems above),
+   and let data requests leave el1's sections and segments as they are (sections: [quiet], true of every section
+   after its first get_data(), C09_quiet_after_first_request; segments: [seg_stable]).  Then a second save() - of
+   the object the first one left, into the same kind of stream - writes exactly the same bytes, returns the same
+   verdict and leaves the same object. *)
+Theorem C06_second_save_writes_the_same_bytes :
+  forall junk el0 os el1 sta secsa stb segsb h,
+    os_bad os = false -> el_hdr el0 = Some h ->
+    force_sections junk (el_stream el0) (el_xlat el0) (el_secs el0) [] = Ok (sta, secsa) ->
+    force_segments sta (el_xlat el0) (el_segs el0) [] = Ok (stb, segsb) ->
+    layout (with_stream (with_segs (with_secs el0 secsa) segsb) stb) = Ok (el1, true) ->
+    layout el1 = Ok (el1, true) ->
+    Forall quiet (el_secs el1) -> Forall offset_norm (el_secs el1) ->
+    Forall (seg_stable (el_stream el1) (el_xlat el1)) (el_segs el1) ->
+    forall r, save junk el0 os = Ok r -> save junk el1 os = Ok (el1, snd (fst r), snd r).
+Proof. exact save_twice_identical. Qed.
+Print Assumptions C06_second_save_writes_the_same_bytes.
+
+(* all of it discharged for objects without segments whose sections have been requested (or saved) before:
+   whatever save() returned - object, stream, verdict - saving the returned object returns again *)
+Theorem C06_second_save_identical_without_segments :
+  forall junk el0 os h0 bound,
+    os_bad os = false -> el_hdr el0 = Some h0 -> el_segs el0 = [] -> Forall quiet (el_secs el0) ->
+    bound <= 2 ^ 64 -> Forall (fun s => bound <= 2 ^ xw (s_cls s)) (el_secs el0) ->
+    e_ehsize h0 + budget (el_secs el0) + 16 < bound ->
+    forall r, save junk el0 os = Ok r -> save junk (fst (fst r)) os = Ok r.
+Proof. exact save_twice_noseg. Qed.
+Print Assumptions C06_second_save_identical_without_segments.
+
 (* non-vacuity: ELF32, a PT_LOAD segment at 0x8048004 (align 0x1000) holding two program sections, a free section behind *)
 Definition ex1_ms (i al sz : N) : section :=
   with_index (with_flags (with_size (with_addralign (with_type (new_section C32) 1) al) sz) 2) i.
@@ -89,6 +119,23 @@ Proof.
   eexists. split; [vm_compute; reflexivity|]. split; [vm_compute; reflexivity|]. split; [vm_compute; reflexivity|].
   repeat constructor; vm_compute; discriminate.
 Qed.
+
+(* evaluation (a test, not a theorem): the one-segment object above, saved twice from its fresh state into an
+   unbounded stream: same verdict, same bytes, and the second save leaves the object the first one left *)
+Example C06_one_segment_two_saves :
+  let fs (i : N) := with_index (with_size (with_addralign (with_type (new_section C32) 1) 1) 7) i in
+  let el := with_segs (with_secs (with_hdr (empty_elfio false) (Some (new_header C32 LSB)))
+                                 [ex1_ms 0 0 0; ex1_ms 1 16 5; ex1_ms 2 4 3; fs 3]) [ex1_seg] in
+  match save (fun _ => 0) el (new_ostream None) with
+  | Ok (el1, os1, ok1) =>
+      ok1 = true /\ lenN (os_bytes os1) = 4304 /\
+      match save (fun _ => 0) el1 (new_ostream None) with
+      | Ok (el2, os2, ok2) => ok2 = true /\ os_bytes os2 = os_bytes os1 /\ el2 = el1
+      | Fault _ => False
+      end
+  | Fault _ => False
+  end.
+Proof. vm_compute. repeat split; reflexivity. Qed.
 
 Definition mk (i ty al sz : N) : section :=
   with_index (with_size (with_addralign (with_type (new_section C64) ty) al) sz) i.
